@@ -1,6 +1,7 @@
 (** Executable model of the coin <-> ERC-20 conversion of x/aggregate (property C11).
 
-    Go sources transcribed (at /repo HEAD, i.e. including the repair add27e7 of MintingEnabled):
+    Go sources transcribed (at /repo HEAD, i.e. including the repairs add27e7 of MintingEnabled and c5eeeaa of
+    convertCoinNativeERC20):
       x/aggregate/keeper/msg_server.go  ConvertCoin, ConvertERC20, convertCoinNativeCoin,
                                         convertERC20NativeCoin, convertERC20NativeToken,
                                         convertCoinNativeERC20, balanceOf, monitorApprovalEvent
@@ -431,8 +432,39 @@ Section Model.
     end.
 
   (** case 2.2: voucher coin -> token of an external contract: escrow, the module transfers to the receiver,
-      ONLY the receiver's token balance is checked, burn the escrowed voucher, no Approval log *)
+      the receiver's token balance must have grown by [a] AND (repair c5eeeaa) the module's own token balance must
+      have dropped by exactly [a]; burn the escrowed voucher, no Approval log *)
   Definition convert_coin_native_erc20 (s : state) (p : pair) (d : bytes) (a receiver sender : Z) : outcome state :=
+    let c := p_erc20 p in
+    let '(s0, b0) := balance_of s c receiver in
+    let '(s0', e0) := balance_of s0 c MODULE in
+    s1 <- send_coins s0' sender MODULE d a ;;
+    let '(s2, r) := evm_call s1 c MODULE (CTransfer receiver a) in
+    if negb (cr_ok r) then Err else
+    match unpack_bool (cr_ret r) with
+    | None => Err
+    | Some false => Err
+    | Some true =>
+        let '(s3, b1) := balance_of s2 c receiver in
+        match b0, b1 with
+        | Some v0, Some v1 =>
+            if negb (v1 =? v0 + a) then Err else
+            let '(s3', e1) := balance_of s3 c MODULE in
+            match e0, e1 with
+            | Some w0, Some w1 =>
+                if negb (w1 =? w0 - a) then Err else
+                s4 <- burn_coins s3' d a ;;
+                _ <- approval_check (cr_logs r) ;;
+                Ok s4
+            | _, _ => Err      (* "cannot read the escrowed token balance" *)
+            end
+        | _, _ => Panic
+        end
+    end.
+
+  (** the same flow BEFORE the repair c5eeeaa (only the receiver's balance was compared); kept for
+      Refuted/C11_refuted.v *)
+  Definition convert_coin_native_erc20_old (s : state) (p : pair) (d : bytes) (a receiver sender : Z) : outcome state :=
     let c := p_erc20 p in
     let '(s0, b0) := balance_of s c receiver in
     s1 <- send_coins s0 sender MODULE d a ;;
@@ -575,6 +607,7 @@ Arguments convert_coin_native_coin {X}.
 Arguments convert_erc20_native_coin {X}.
 Arguments convert_erc20_native_token {X}.
 Arguments convert_coin_native_erc20 {X}.
+Arguments convert_coin_native_erc20_old {X}.
 Arguments convert_coin {X}.
 Arguments convert_erc20 {X}.
 Arguments handle {X}.
